@@ -4752,6 +4752,9 @@ func (t *Terminal) Loop() error {
 		}
 
 		for running {
+			// Events for the key loop are sent when no lock is held: the key loop
+			// may be waiting for one of them with the channel full
+			var keyLoopEvents []tui.Event
 			t.reqBox.Wait(func(events *util.Events) {
 				defer events.Clear()
 
@@ -4802,7 +4805,7 @@ func (t *Terminal) Loop() error {
 						}
 						if (t.hasFocusActions || t.infoCommand != "") && focusChanged && currentIndex != t.lastFocus {
 							t.lastFocus = currentIndex
-							t.eventChan <- tui.Focus.AsEvent()
+							keyLoopEvents = append(keyLoopEvents, tui.Focus.AsEvent())
 							if t.infoCommand != "" {
 								info = true
 							}
@@ -4849,7 +4852,7 @@ func (t *Terminal) Loop() error {
 							refreshPreview(t.previewOpts.command)
 						}
 						if req == reqResize && t.hasResizeActions {
-							t.eventChan <- tui.Resize.AsEvent()
+							keyLoopEvents = append(keyLoopEvents, tui.Resize.AsEvent())
 						}
 					case reqClose:
 						exit(func() int {
@@ -4917,6 +4920,12 @@ func (t *Terminal) Loop() error {
 				t.mutex.Unlock()
 				t.uiMutex.Unlock()
 			})
+			for _, event := range keyLoopEvents {
+				if !running {
+					break
+				}
+				t.eventChan <- event
+			}
 		}
 
 		// The process exits as soon as the coordinator sees EvtQuit. Make sure
